@@ -36,7 +36,9 @@ def main():
     # demonstrations assert the checkout path they were written against: /tmp/mut-<property id>
     # (".st" suffix: still satisfies the demonstrations' startswith() assertion without colliding with
     # a mutation author's live worktree at /tmp/mut-<property id>)
-    wt = Path(meta.get("worktree") or f"/tmp/mut-{meta['property'].lower()}.st")
+    wt = Path(meta.get("worktree") or f"/tmp/mut-{meta['property'].lower()}")
+    if wt.exists():  # a mutation author is working there right now
+        wt = Path(str(wt) + ".st")
     if wt.exists():
         sh(f"git -C /repo worktree remove --force {wt}")
     sh(f"git -C /repo worktree add -q --detach {wt} {a.base}")
@@ -45,6 +47,8 @@ def main():
         demo = d / "demo.py"
         r0 = sh(f"cd {wt} && /venv/bin/python {demo}", env=env)
         ap_ = sh(f"git -C {wt} apply {d/'patch.diff'}")
+        if ap_.returncode != 0:  # the tree moved on since the change was written: try a 3-way merge
+            ap_ = sh(f"git -C {wt} apply --3way {d/'patch.diff'} && git -C {wt} reset -q")
         if ap_.returncode != 0:
             print("PATCH DOES NOT APPLY:", ap_.stderr[-500:])
             return 2
